@@ -223,7 +223,11 @@ class P:
             while not self.at("|"):
                 ps.append(self.next()[1]); self.opt(",")
             self.eat("|")
-            return ("closure", ps, self.expr())
+            body = self.expr()
+            if self.at("="):
+                self.next()
+                body = ("assignexpr", body, self.expr())
+            return ("closure", ps, body)
         if self.opt("["):
             items = []
             while not self.at("]"):
@@ -554,6 +558,7 @@ def macro_expand(src, name, arm, inv, extra):
 
 # ----------------------------------------------------------------------------- back end
 MUT_PARAMS = {"u256_idiv_u128_special": ["xh", "xl"]}     # fn name -> names of its `&mut` parameters (their final values are returned, before the declared result)
+THREAD_LOCAL_CELL = "DFLT_ROUNDING_MODE"
 UNIT_RET = set()    # translated functions that return no value (only the final values of their `&mut` parameters)
 LOOP_FUEL = {}      # (fn name, loop index) -> fuel constant of the generated loop function
 
@@ -1229,6 +1234,20 @@ class Emit:
             if lb:
                 raise Unsupported("effect inside a closure")
             return lr, f"(Option.map (fun {ps[0]} => {xb}) ({xr}))"
+        if m == "with" and len(args) == 1 and args[0][0] == "closure" and len(args[0][1]) == 1 and recv[0] == "path" \
+                and recv[1] == [THREAD_LOCAL_CELL]:
+            # access to the thread-local `RefCell`: `CELL.with(|m| *m.borrow())` reads the calling thread's cell,
+            # `CELL.with(|m| *m.borrow_mut() = e)` writes it.  The cell is an explicit parameter `cell`; a function that writes
+            # returns the new contents.  (No borrow can be outstanding: the closure does nothing else.)
+            mv, body = args[0][1][0], args[0][2]
+            if body == ("method", ("path", [mv]), "borrow", []):
+                self.reads_cell = True
+                return [], "cell"
+            if body[0] == "assignexpr" and body[1] == ("method", ("path", [mv]), "borrow_mut", []):
+                ls, x = self.ex(body[2], "RoundingMode")
+                self.writes_cell = True
+                return ls + [f"let cell : Mode := {x}"], "()"
+            raise Unsupported("thread-local access pattern")
         if m == "then" and len(args) == 1 and args[0][0] == "closure" and not args[0][1]:
             # bool::then with a pure closure
             lr, xr = self.ex(recv, "bool")
@@ -2045,7 +2064,7 @@ class Emit:
 
 
 # ----------------------------------------------------------------------------- driver
-GROUP_IMPORTS = {"KFormat": ["Fpdec.Gen.KDivRounded", "Fpdec.Gen.Consts", "Fpdec.Model.Format"], "KParse": ["Fpdec.Gen.KSwar", "Fpdec.Gen.Consts", "Fpdec.Model.Parser"], "KMagn": ["Fpdec.Gen.KLog", "Fpdec.Gen.Consts", "Fpdec.Model.Decimal"], "KRatio": ["Fpdec.Gen.KPow", "Fpdec.Model.Decimal"], "KPow": ["Fpdec.Gen.Consts"], "KDivRounded": ["Fpdec.Gen.KRound", "Fpdec.Gen.KPow", "Fpdec.Model.Core"],
+GROUP_IMPORTS = {"KTls": [], "KFormat": ["Fpdec.Gen.KDivRounded", "Fpdec.Gen.Consts", "Fpdec.Model.Format"], "KParse": ["Fpdec.Gen.KSwar", "Fpdec.Gen.Consts", "Fpdec.Model.Parser"], "KMagn": ["Fpdec.Gen.KLog", "Fpdec.Gen.Consts", "Fpdec.Model.Decimal"], "KRatio": ["Fpdec.Gen.KPow", "Fpdec.Model.Decimal"], "KPow": ["Fpdec.Gen.Consts"], "KDivRounded": ["Fpdec.Gen.KRound", "Fpdec.Gen.KPow", "Fpdec.Model.Core"],
                  "KDecDiv": ["Fpdec.Gen.KDivRounded"], "KDecMul": ["Fpdec.Gen.KDivRounded", "Fpdec.Model.Decimal"], "KNorm": [], "KFromStr": ["Fpdec.Gen.KPow", "Fpdec.Gen.Consts", "Fpdec.Model.Parser"], "KIntoFloat": ["Fpdec.Gen.Consts", "Fpdec.Model.Decimal"], "KIntOps": ["Fpdec.Gen.KDecDiv", "Fpdec.Gen.KNorm", "Fpdec.Gen.Consts", "Fpdec.Model.Decimal"], "KForward": ["Fpdec.Gen.KAddSub", "Fpdec.Gen.KDecOps"], "KIntConv": ["Fpdec.Gen.KPow", "Fpdec.Model.Decimal"], "KCmp": ["Fpdec.Gen.KPow", "Fpdec.Model.Decimal"], "KAddSub": ["Fpdec.Gen.KPow", "Fpdec.Model.Decimal"], "KDecUnops": ["Fpdec.Gen.KUnops", "Fpdec.Gen.KPow", "Fpdec.Model.Decimal"], "KDecOps": ["Fpdec.Gen.KDecDiv", "Fpdec.Gen.KDecMul", "Fpdec.Gen.KNorm", "Fpdec.Gen.Consts", "Fpdec.Model.Decimal"],
                  "KDecRound": ["Fpdec.Gen.KDivRounded", "Fpdec.Model.Decimal"],
                  "KFloat": ["Fpdec.Gen.KNorm", "Fpdec.Gen.Consts", "Fpdec.Model.Core", "Fpdec.Model.Decimal"], "KRem": ["Fpdec.Gen.KPow"], "KDecRem": ["Fpdec.Gen.KRem", "Fpdec.Model.Decimal"],
@@ -2067,6 +2086,8 @@ KERNELS = [
     ("KPow", "fpdec-core/src/lib.rs", "checked_adjust_coeffs", None),
     ("KRound", "fpdec-core/src/lib.rs", "i128_div_mod_floor", None),
     ("KRound", "fpdec-core/src/rounding.rs", "round_quot", None),
+    ("KTls", "fpdec-core/src/rounding.rs", "default", "RoundingMode", {"as": "rounding_mode_default", "cell": "r"}),
+    ("KTls", "fpdec-core/src/rounding.rs", "set_default", "RoundingMode", {"as": "rounding_mode_set_default", "cell": "rw"}),
     ("KDivRounded", "fpdec-core/src/rounding.rs", "i128_div_rounded", None),
     ("KDivRounded", "fpdec-core/src/rounding.rs", "i128_shifted_div_rounded", None),
     ("KDivRounded", "fpdec-core/src/rounding.rs", "i128_mul_div_ten_pow_rounded", None),
@@ -2320,6 +2341,11 @@ def translate(repo):
             params, ret, body = parse_fn(text, fname, opts.get("occ", 0), name)
             ERR_TYPE[0] = opts.get("err", "DecimalError")
             params = [(n, sub(t, selfty)) for n, t in params]
+            if "cell" in opts:
+                # the function accesses the thread-local cell: it becomes an explicit first parameter (and, when written, a result)
+                params = [("cell", "RoundingMode")] + params
+                if opts["cell"] == "rw":
+                    MUT_PARAMS.setdefault(name, []).append("cell")
             ret = opts["ret"] if "ret" in opts else sub(ret, selfty)
             parsed[name] = (params, ret, body, selfty)
             sigs[name] = (params, ret, None)
